@@ -19,7 +19,8 @@
    ([no_link_groups]); see props/C15.json for the gap. *)
 From Coq Require Import List NArith Bool.
 From FS Require Import Sx Model.Path Model.SymMode Model.Copier Model.CopySpec
-  Proofs.CopierP Proofs.CopyOpsP Proofs.CopyTopP Proofs.CopyThmP Proofs.CopyConflictP Proofs.CopyEx.
+  Proofs.CopierP Proofs.CopyOpsP Proofs.CopyTopP Proofs.CopyThmP Proofs.CopyConflictP Proofs.CopyFaithP
+  Proofs.CopyIdemP Proofs.CopyEx.
 Import ListNotations.
 Open Scope N_scope.
 Open Scope bool_scope.
@@ -71,11 +72,60 @@ Theorem copy_preserves_wf :
   forall fs src dst st', wf_fs fs -> copy_top o sel_all sroot fs src dst = (st', None) -> wf_fs (c_fs st').
 Proof. exact copy_preserves_wf_proof. Qed.
 
+(* "... unless always-replace is set, in which case the source wins": no clash is reported, and
+   after a successful copy every source entry is at its destination path with the source's
+   type, a source non-directory as a faithful copy whatever was there before (one literal source;
+   what else is there is copy_overlay_partial). *)
+Theorem always_replace_source_wins_partial :
+  forall o sroot, wf_src sroot -> no_link_groups sroot ->
+  forall fs src dst ms sn,
+    o_replace o = true -> o_wild o = false -> wf_fs fs ->
+    parse_of o = Some ms -> s_resolve sroot (rooted src) = inl sn ->
+    (forall cls p bef, overlay_all o sroot (view_of_fs fs) src dst <> inr (XConflict cls p bef)) /\
+    (forall r L, overlay_all o sroot (view_of_fs fs) src dst = inl r -> xr_landings r = [L] ->
+       exists st', copy_top o sel_all sroot fs src dst = (st', None) /\
+         forall rel s, s_lookup sn rel = Some s ->
+           exists i d, view_of_fs (c_fs st') (L ++ rel) = Some (i, d) /\ ftype d = copy_type (sdent s) /\
+                       (is_dir (sdent s) = false -> faithful_dent o ms (sdent s) d = true)).
+Proof. exact always_replace_source_wins_partial_proof. Qed.
+
+(* Repeating a successful copy changes nothing: every path has the same dentry (type, mode,
+   owner, device, symlink target, xattrs, bytes) after the second application, and the same
+   mtime except for directories whose entries were re-created (their expected entry has
+   x_known = false: "some time during the call").
+   Full statement (copy_idempotent): target_stable o fs -> copy (copy fs) ~ copy fs for every
+   successful copy.  Here target_stable is the pair of hypotheses on the SECOND application:
+   the specification predicts success and the same landing path ([xr_landings]) - without it
+   the statement contradicts the landing rule (a source directory copied to a not yet existing
+   dst lands AT dst the first time and INSIDE dst the second time, like cp -a); landing_clear
+   as in C13.  One literal source, no link groups; inode numbers are not compared
+   (non-directories are re-created). *)
+Theorem copy_idempotent_partial :
+  forall o sroot, wf_src sroot -> no_link_groups sroot ->
+  forall fs src dst r1 st1 r2 ms sn L,
+    o_wild o = false -> wf_fs fs ->
+    overlay_all o sroot (view_of_fs fs) src dst = inl r1 ->
+    copy_top o sel_all sroot fs src dst = (st1, None) ->
+    parse_of o = Some ms -> s_resolve sroot (rooted src) = inl sn ->
+    xr_landings r1 = [L] -> landing_clear r1 sn L ->
+    overlay_all o sroot (view_of_fs (c_fs st1)) src dst = inl r2 -> xr_landings r2 = [L] ->
+    exists st2, copy_top o sel_all sroot (c_fs st1) src dst = (st2, None) /\
+      forall p, match view_of_fs (c_fs st1) p, view_of_fs (c_fs st2) p with
+                | None, None => True
+                | Some (_, d1), Some (_, d2) =>
+                    same_but_time d1 d2 /\
+                    (d_mtime d1 = d_mtime d2 \/ exists e, xr_view r2 p = Some e /\ x_known e = false)
+                | _, _ => False
+                end.
+Proof. exact copy_idempotent_partial_proof. Qed.
+
 Print Assumptions copy_overlay_partial.
 Print Assumptions copy_error_partial.
 Print Assumptions conflict_is_error_and_keeps_obstacle_partial.
 Print Assumptions always_replace_never_conflicts.
 Print Assumptions copy_preserves_wf.
+Print Assumptions always_replace_source_wins_partial.
+Print Assumptions copy_idempotent_partial.
 
 (* ---- non-vacuity ---- *)
 Example ex_hypotheses :
@@ -141,5 +191,29 @@ Example ex_wildcard :
       view_matches_b (view_of_fs (c_fs st')) (xr_view r) ([n_x; n_d] :: [n_x; n_d; n_f] :: [n_x; n_d; n_l] :: [n_x; n_p] :: ex_paths) &&
       (match lstat (c_fs st') [n_x; n_d; n_f], lstat (c_fs st') [n_x; n_p] with Some _, Some _ => true | _, _ => false end)
   | _, _ => false
+  end = true.
+Proof. vm_compute. reflexivity. Qed.
+
+(* the always-replace copy of ex_replace applied twice: same landing, same dentries everywhere *)
+Definition dent_eqb (a b : dent) : bool :=
+  N.eqb (d_mode a) (d_mode b) && N.eqb (d_uid a) (d_uid b) && N.eqb (d_gid a) (d_gid b) &&
+  N.eqb (d_rdev a) (d_rdev b) && bytes_eqb (d_target a) (d_target b) && xattrs_eqb (d_xattrs a) (d_xattrs b) &&
+  bytes_eqb (d_content a) (d_content b).
+Example ex_idempotent :
+  match copy_top o_replace_on sel_all ex_src ex_dst n_d s_slash with
+  | (st1, None) =>
+    match overlay_all o_replace_on ex_src (view_of_fs ex_dst) n_d s_slash,
+          overlay_all o_replace_on ex_src (view_of_fs (c_fs st1)) n_d s_slash,
+          copy_top o_replace_on sel_all ex_src (c_fs st1) n_d s_slash with
+    | inl r1, inl r2, (st2, None) =>
+        (match xr_landings r1, xr_landings r2 with [L1], [L2] => path_eqb L1 L2 | _, _ => false end) &&
+        forallb (fun p => match lstat (c_fs st1) p, lstat (c_fs st2) p with
+                          | Some d1, Some d2 => dent_eqb d1 d2 && (N.eqb (d_mtime d1) (d_mtime d2) || is_dir d2)
+                          | None, None => true
+                          | _, _ => false end) ex_paths &&
+        (match lstat (c_fs st2) [n_d; n_f] with Some d => is_reg d | None => false end)
+    | _, _, _ => false
+    end
+  | _ => false
   end = true.
 Proof. vm_compute. reflexivity. Qed.
